@@ -27,6 +27,12 @@ def Serde.serStr (ty : Ty) (v : Int) : Chk Bytes :=
   match formatValue ty v (Serde.picture ty) (some Serde.BUF_CAP) with
   | .ok t => .ok t
   | .error .Panic => .error .Panic
+  | .error .FormatError =>
+    -- `StackStr::write_str` does not report a full buffer, it PANICS (stack-buf 0.1.6: `push_str` → `copy_from_slice`):
+    -- a text that the unbounded sink accepts but the buffer cannot hold is a panic, not a serde error
+    match formatValue ty v (Serde.picture ty) none with
+    | .ok _ => .error .Panic
+    | _ => .error .Serde
   | .error _ => .error .Serde
 
 /-- Human-readable deserialisation (`visit_str`). The fixed pictures never consult the clock
